@@ -366,7 +366,11 @@ pub fn random_pn_event(rng: &mut Rng, channels: u8, nvalues: u8, polls: bool, ti
     } else {
         [0u8, 127, 1, 64][rng.below(nvalues as u64) as usize]
     };
-    let r = rng.below(if polls { 118 } else { 100 });
+    let r = rng.below(if polls { 118 } else if ticks.is_empty() { 100 } else { 103 });
+    if !polls && r >= 100 {
+        // clock steps between the messages of a clock-free scanner
+        return Ev::Tick(*rng.pick(ticks));
+    }
     if dict && (46..=73).contains(&r) {
         // parameter number bytes from the dictionary (MSB mostly 0, as for the standard RPNs)
         let cn = [98u8, 99, 100, 101, 100, 101][rng.below(6) as usize];
@@ -479,7 +483,7 @@ pub fn run_c11(cfg: &Cfg, rep: &mut Report) {
             let mut hist: Vec<Ev> = Vec::with_capacity(len as usize);
             let mut reported = false;
             for _ in 0..len {
-                let e = random_pn_event(&mut rng, chans, nvalues, false, &[]);
+                let e = random_pn_event(&mut rng, chans, nvalues, false, &crate::scan::TIME_SHIFTS);
                 hist.push(e);
                 let h = &hist;
                 if mon.apply(&e, rep, &|| h.iter().map(|e| e.render()).collect()).is_some() {
@@ -544,6 +548,13 @@ fn random_message(rng: &mut Rng) -> PnM {
 fn feed_unit(mon: &mut PnMon, hist: &mut Vec<Ev>, m: &PnM, events: &[Ev], what: &str, rep: &mut Report) {
     let k = events.len();
     for (i, e) in events.iter().enumerate() {
+        if i > 0 && (m.value as usize + m.number as usize + i) % 3 == 0 {
+            // time passes between the messages of one encoding (the scanner has no clock)
+            let step = Ev::Tick(crate::scan::TIME_SHIFTS[(m.value as usize / 3 + i) % 8]);
+            hist.push(step);
+            mon.apply(&step, rep, &|| vec![]);
+            rep.count("c10_pauses_inside_an_encoding", 1);
+        }
         hist.push(*e);
         let got = {
             let h: &Vec<Ev> = hist;
@@ -599,13 +610,20 @@ fn crate_encoding(m: &PnM, lsb_first: bool, rep: &mut Report) -> Vec<Ev> {
 fn c10_message_after_state(base: &PnMon, prefix: &[String], m: &PnM, rep: &mut Report) {
     // 7-bit/inc/dec: either byte order parameter; 14-bit: LSB first (the form the scanner documents)
     let orders: &[bool] = if m.is14 { &[true] } else { &[false, true] };
-    for &lf in orders {
+    // second pass (std builds, which have a clock): time passes between the messages
+    let passes: &[bool] = if cfg!(feature = "std") { &[false, true] } else { &[false] };
+    for (&lf, &pauses) in orders.iter().flat_map(|o| passes.iter().map(move |p| (o, p))) {
         let mut mon = base.clone();
         let evs = crate_encoding(m, lf, rep);
         let mut hist: Vec<Ev> = Vec::new();
         // render prefix lazily via a fake history: we keep the prefix as strings
         let k = evs.len();
         for (i, e) in evs.iter().enumerate() {
+            if pauses {
+                let step = Ev::Tick(crate::scan::TIME_SHIFTS[(m.value as usize + m.number as usize + i) % 8]);
+                hist.push(step);
+                mon.apply(&step, rep, &|| vec![]);
+            }
             hist.push(*e);
             let got = {
                 let h = &hist;
@@ -719,7 +737,7 @@ pub fn run_c10(cfg: &Cfg, rep: &mut Report) {
                 mon.apply(&Ev::Reset, rep, &|| vec!["reset".into()]);
             }
             for _ in 0..rng.below(4) {
-                let e = random_pn_event(rng, 16, 128, false, &[]);
+                let e = random_pn_event(rng, 16, 128, false, &crate::scan::TIME_SHIFTS);
                 hist.push(e);
                 let h: &Vec<Ev> = hist;
                 mon.apply(&e, rep, &|| h.iter().map(|e| e.render()).collect());
